@@ -79,3 +79,23 @@ where
         }
     }
 }
+
+/// The panicking accessor `get_multiple_mut`: `None` if it panicked.
+pub fn run_multi_panicking<'b, T>(st: &'b mut St, vals: &[u32]) -> Option<MultiOutcome>
+where
+    T: MultiStateTuple<'b, 'static>,
+    T::References: Refs,
+{
+    // `guarded` takes an FnOnce, so the reborrow of `st` for 'b can move into the closure
+    let r = crate::framework::guarded(move || {
+        let refs = st.get_multiple_mut::<T>();
+        let mut v = refs.collect();
+        let addrs: Vec<usize> = v.iter().map(|(a, _)| *a).collect();
+        let old: Vec<u32> = v.iter().map(|(_, r)| r.get()).collect();
+        for (i, (_, r)) in v.iter_mut().enumerate() {
+            r.set(vals[i]);
+        }
+        MultiOutcome::Refs { addrs, old }
+    });
+    r.ok()
+}
